@@ -133,6 +133,16 @@ def stackScan : List RtVal → Option RtVal
   | [] => none
   | v :: vs => if vs.all (fun w => w == v) then some ⟨v.e, (vs.length + 1) :: v.s⟩ else none
 
+/-- A scan output of a loop that ran **zero** times (onnxruntime): an empty tensor whose leading
+    dim is 0 and whose remaining dims are taken from the type the body *declares* for that result
+    (constant dims kept, unknown ones arbitrary); any shape if the declared rank is unknown. -/
+def emptyScanOk (w : RtVal) (t : Ty) : Bool :=
+  w.e == t.e && (match t.s with
+    | none => true
+    | some ds => match w.s with
+      | 0 :: r => dimsOk r ds
+      | _ => false)
+
 /-- Column `j` of the per-iteration scan slices (what scan output `j` stacks). -/
 def column (scs : List (List RtVal)) (j : Nat) : List RtVal := scs.filterMap (fun row => row[j]?)
 
